@@ -43,6 +43,7 @@ def builtin_hook(f):
 def load_all():
     from . import models_h2  # noqa: F401
     from . import models_ws  # noqa: F401
+    from . import models_h11  # noqa: F401
 
 
 load_all()
